@@ -204,3 +204,266 @@ func runReservedKey(c *Ctx) []Obligation {
 	}
 	return out
 }
+
+// QUOTE-PAIR (C20): string literals are printed by quoting them with Go syntax (fmt's %q or
+// strconv.Quote: quotes, backslashes and control characters become escape sequences). The shell's
+// lexer is the inverse only if (a) it does not take an escaped quote for the end of the literal and
+// (b) it turns the escape sequences back into the characters they stand for.
+//
+// Slots (by shape, package api): the printers are the functions reachable from UnparseExpression
+// that format an operand with %q or call strconv.Quote; the string lexer is the method that returns
+// the generated STRING token. Obligations (only when some printer quotes with Go syntax):
+//
+//	#skip     the lexer's scanning loop has a branch for the backslash that consumes the following
+//	          rune before it looks for the closing quote;
+//	#unquote  the lexer passes the consumed token through strconv.Unquote.
+func init() {
+	register(&Rule{
+		Name:  "QUOTE-PAIR",
+		IR:    "ast",
+		Props: []string{"C20"},
+		Floor: 2,
+		Doc:   "strings are printed with Go quoting (%q / strconv.Quote), so the string lexer skips escaped characters when it looks for the closing quote and unquotes the token with strconv.Unquote",
+		Run:   runQuotePair,
+	})
+}
+
+func runQuotePair(c *Ctx) []Obligation {
+	var out []Obligation
+	p := c.Pkg("api")
+	if p == nil {
+		return out
+	}
+	info := p.TypesInfo
+	quotes := ""
+	var lexer *ast.FuncDecl
+	for _, fd := range c.FuncDecls(p) {
+		ast.Inspect(fd.Body, func(n ast.Node) bool {
+			switch x := n.(type) {
+			case *ast.CallExpr:
+				if fn := calleeFunc(info, x); fn != nil && fn.Pkg() != nil {
+					if fn.Pkg().Path() == "strconv" && fn.Name() == "Quote" && quotes == "" {
+						quotes = c.FuncName(p, fd) + " (strconv.Quote)"
+					}
+					if fn.Pkg().Path() == "fmt" && strings.HasPrefix(fn.Name(), "Sprintf") && len(x.Args) > 0 {
+						if tv := info.Types[x.Args[0]]; tv.Value != nil && strings.Contains(tv.Value.ExactString(), "%q") && quotes == "" {
+							quotes = c.FuncName(p, fd) + " (%q)"
+						}
+					}
+				}
+			case *ast.ReturnStmt:
+				if fd.Recv != nil && len(x.Results) == 1 {
+					if id, ok := ast.Unparen(x.Results[0]).(*ast.Ident); ok && id.Name == "STRING" {
+						lexer = fd
+					}
+				}
+			}
+			return true
+		})
+	}
+	if quotes == "" || lexer == nil {
+		return out
+	}
+	name := c.FuncName(p, lexer)
+	skip, unquote := false, false
+	ast.Inspect(lexer.Body, func(n ast.Node) bool {
+		switch x := n.(type) {
+		case *ast.IfStmt:
+			// a branch whose condition compares with '\\' and whose body advances an index
+			hasBackslash := false
+			ast.Inspect(x.Cond, func(m ast.Node) bool {
+				if bl, ok := m.(*ast.BasicLit); ok && (bl.Value == `'\\'` || bl.Value == `"\\"`) {
+					hasBackslash = true
+				}
+				return true
+			})
+			if hasBackslash {
+				ast.Inspect(x.Body, func(m ast.Node) bool {
+					if as, ok := m.(*ast.AssignStmt); ok && (as.Tok == token.ADD_ASSIGN) {
+						skip = true
+					}
+					if inc, ok := m.(*ast.IncDecStmt); ok && inc.Tok == token.INC {
+						skip = true
+					}
+					return true
+				})
+			}
+		case *ast.CallExpr:
+			if fn := calleeFunc(info, x); fn != nil && fn.Pkg() != nil && fn.Pkg().Path() == "strconv" && strings.HasPrefix(fn.Name(), "Unquote") {
+				unquote = true
+			}
+		}
+		return true
+	})
+	mk := func(suffix string, ok bool, good, bad string) {
+		ob := Obligation{Key: name + suffix, Pos: c.Position(lexer.Pos()), Status: OK, Detail: good}
+		if !ok {
+			ob.Status, ob.Detail = Violation, bad
+		}
+		out = append(out, ob)
+	}
+	mk("#skip", skip, "the string lexer consumes the character after a backslash before it looks for the closing quote",
+		fmt.Sprintf("strings are printed by %s, which writes a quote inside a string as \\\", but %s ends the literal at the first '\"' whatever precedes it: a printed string that contains a quote does not parse back", quotes, name))
+	mk("#unquote", unquote, "the string lexer unquotes the token with strconv.Unquote",
+		fmt.Sprintf("strings are printed by %s, which writes backslashes and control characters as escape sequences, but %s never unquotes the token: the escape sequences come back as literal text", quotes, name))
+	return out
+}
+
+// QUERY-BRACKETS (C20): the shell grammar for queries is right recursive and has no precedence
+// between `&` and `|` (`a | b & c` is `a | [b & c]`); grouping exists only through brackets. The
+// printer therefore has to put an operand that is itself a union or an intersection in brackets,
+// or the printed text parses to a differently grouped query.
+//
+// Slots (by shape, package api): the arms of the query printer that join the printed operands with
+// an operator literal (strings.Join(xs, " & ") / " | "), where xs[i] is the result of a call G(child).
+// Obligation per arm: G is not the joining function itself (which prints operands bare); G
+// distinguishes the composite query types — the named slice types of b6.Query elements — in a type
+// switch, and for them returns the result of a function that wraps its output in "[" … "]".
+func init() {
+	register(&Rule{
+		Name:  "QUERY-BRACKETS",
+		IR:    "ast",
+		Props: []string{"C20"},
+		Floor: 2,
+		Doc:   "the query printer puts an operand that is itself a union or an intersection in brackets: the grammar has no precedence between & and |, so bare nesting parses to a differently grouped query",
+		Run:   runQueryBrackets,
+	})
+}
+
+func runQueryBrackets(c *Ctx) []Obligation {
+	var out []Obligation
+	p := c.Pkg("api")
+	if p == nil {
+		return out
+	}
+	info := p.TypesInfo
+	// functions that wrap their result in brackets: contain a "[" and a "]" string literal in a concatenation
+	brackets := map[*types.Func]bool{}
+	decls := map[*types.Func]*ast.FuncDecl{}
+	for _, fd := range c.FuncDecls(p) {
+		obj, _ := info.Defs[fd.Name].(*types.Func)
+		if obj == nil {
+			continue
+		}
+		decls[obj] = fd
+		open, close := false, false
+		ast.Inspect(fd.Body, func(n ast.Node) bool {
+			if bl, ok := n.(*ast.BasicLit); ok {
+				if bl.Value == `"["` {
+					open = true
+				}
+				if bl.Value == `"]"` {
+					close = true
+				}
+			}
+			return true
+		})
+		if open && close {
+			brackets[obj] = true
+		}
+	}
+	isComposite := func(t types.Type) bool {
+		n := namedOf(t)
+		if n == nil {
+			return false
+		}
+		sl, ok := n.Underlying().(*types.Slice)
+		if !ok {
+			return false
+		}
+		en := namedOf(sl.Elem())
+		return en != nil && en.Obj().Name() == "Query"
+	}
+	for _, fd := range c.FuncDecls(p) {
+		self, _ := info.Defs[fd.Name].(*types.Func)
+		name := c.FuncName(p, fd)
+		ord := 0
+		ast.Inspect(fd.Body, func(n ast.Node) bool {
+			cc, ok := n.(*ast.CaseClause)
+			if !ok || len(cc.List) != 1 {
+				return true
+			}
+			tv, ok := info.Types[cc.List[0]]
+			if !ok || !tv.IsType() || !isComposite(tv.Type) {
+				return true
+			}
+			// a strings.Join with an operator literal in this arm
+			op := ""
+			var g *types.Func
+			for _, st := range cc.Body {
+				ast.Inspect(st, func(m ast.Node) bool {
+					call, ok := m.(*ast.CallExpr)
+					if !ok {
+						return true
+					}
+					if fn := calleeFunc(info, call); fn != nil {
+						if fn.Pkg() != nil && fn.Pkg().Path() == "strings" && fn.Name() == "Join" && len(call.Args) == 2 {
+							if v := info.Types[call.Args[1]].Value; v != nil {
+								op = strings.TrimSpace(strings.Trim(v.ExactString(), `"`))
+							}
+						} else if fn.Pkg() != nil && fn.Pkg().Path() == p.PkgPath && len(call.Args) == 1 {
+							if _, isIdx := ast.Unparen(call.Args[0]).(*ast.IndexExpr); isIdx {
+								g = fn
+							}
+						}
+					}
+					return true
+				})
+			}
+			if op == "" || g == nil {
+				return true
+			}
+			ord++
+			ob := Obligation{Key: fmt.Sprintf("%s#%s", name, namedOf(tv.Type).Obj().Name()), Pos: c.Position(cc.Pos()), Status: OK}
+			switch {
+			case g == self:
+				ob.Status = Violation
+				ob.Detail = fmt.Sprintf("the operands of %q are printed by %s itself, i.e. bare: an operand that is a union or an intersection loses its brackets, and the grammar (right recursive, no precedence) regroups it", op, g.Name())
+			default:
+				gd := decls[g]
+				okAll := false
+				if gd != nil {
+					covered := map[string]bool{}
+					ast.Inspect(gd.Body, func(m ast.Node) bool {
+						gc, ok := m.(*ast.CaseClause)
+						if !ok {
+							return true
+						}
+						wraps := false
+						for _, st := range gc.Body {
+							ast.Inspect(st, func(k ast.Node) bool {
+								if call, ok := k.(*ast.CallExpr); ok {
+									if fn := calleeFunc(info, call); fn != nil && brackets[fn] {
+										wraps = true
+									}
+								}
+								return true
+							})
+						}
+						if wraps {
+							for _, e := range gc.List {
+								if tv, ok := info.Types[e]; ok && tv.IsType() {
+									if nt := namedOf(tv.Type); nt != nil {
+										covered[nt.Obj().Name()] = true
+									}
+								}
+							}
+						}
+						return true
+					})
+					okAll = covered["Intersection"] && covered["Union"]
+				}
+				if okAll {
+					ob.Detail = fmt.Sprintf("operands of %q are printed by %s, which brackets unions and intersections", op, g.Name())
+				} else {
+					ob.Status = Violation
+					ob.Detail = fmt.Sprintf("operands of %q are printed by %s, which does not bracket both unions and intersections", op, g.Name())
+				}
+			}
+			out = append(out, ob)
+			return true
+		})
+		_ = ord
+	}
+	return out
+}
